@@ -175,9 +175,23 @@ class SchedSemaphore:
         self.sched = sched
         self.count = value
         self.log = log
+        self.n_failed_tries = 0
 
     def acquire(self, blocking=True, timeout=None):
-        self.sched.park(lambda: self.count > 0)
+        """threading.Semaphore.acquire: a blocking acquire is enabled only while the counter is positive.
+        A non-blocking acquire (blocking=False) or one with a timeout is a yield point that is ALWAYS
+        enabled: whether it obtains the semaphore depends on the counter at the moment the scheduler
+        lets it go (a timeout expiring = being scheduled while the semaphore is still held).  A failed
+        attempt changes nothing on the shared object and is not logged."""
+        if not blocking and timeout is not None:
+            raise ValueError("can't specify timeout for non-blocking acquire")
+        if blocking and timeout is None:
+            self.sched.park(lambda: self.count > 0)
+        else:
+            self.sched.park()
+            if self.count <= 0:
+                self.n_failed_tries += 1
+                return False
         self.count -= 1
         if self.log is not None:
             self.log.append((self.sched.current_tid(), "acq"))
